@@ -1,7 +1,7 @@
 use std::collections::BTreeSet;
 use std::collections::HashMap;
 
-use crate::analyzer::qa::QualityAssurance;
+use crate::analyzer::qa::{get_all_qa, QualityAssurance};
 use crate::analyzer::utils::LineNumber;
 use crate::report::report_sections::qa::overview;
 
@@ -19,10 +19,18 @@ pub fn generate_qa_report(
 
     qa_report.push_str((overview_section + "\n").as_str());
 
+    //Render the patterns in a fixed order and the files of each pattern sorted by name,
+    //so that the report does not depend on hash map iteration order or on file discovery order
+    let pattern_order = get_all_qa();
+    let mut qa_items: Vec<(QualityAssurance, Vec<(String, BTreeSet<LineNumber>)>)> =
+        qa_items.into_iter().collect();
+    qa_items.sort_by_key(|(pattern, _)| pattern_order.iter().position(|p| p == pattern));
+
     for item in qa_items {
         if item.1.len() > 0 {
             let qa_target = item.0;
-            let matches = item.1;
+            let mut matches = item.1;
+            matches.sort();
 
             let report_section = get_qa_report_section(qa_target);
 
